@@ -1,19 +1,26 @@
 package eng
 
 import (
+	"database/sql"
 	"hash/fnv"
 	"net"
+	"sync"
 
 	"github.com/coredhcp/coredhcp/logger"
 	"github.com/sirupsen/logrus"
 )
 
 // caseLogLevel: the log level is a dimension of the environment (what -L debug is in production: lazily
-// formatted arguments and level-guarded code only run there). A quarter of the cases run at debug level,
+// formatted arguments and level-guarded code only run there; code guarded by "info enabled" does not run at warning and above). A quarter of the cases run at debug level, an eighth each at warning and error,
 // determined by the case seed so that a replay runs at the same level.
 func caseLogLevel(seed int64) string {
-	if uint64(seed)%4 == 1 {
+	switch uint64(seed) % 8 {
+	case 1, 5:
 		return "debug"
+	case 3:
+		return "warning"
+	case 7:
+		return "error"
 	}
 	return "info"
 }
@@ -43,3 +50,18 @@ func parseIP(s string) net.IP { return net.ParseIP(s) }
 func loIface() net.Interface { return net.Interface{} }
 
 func u32ip(v uint32) net.IP { return net.IPv4(byte(v>>24), byte(v>>16), byte(v>>8), byte(v)).To4() }
+
+var sqliteOnce sync.Once
+var sqliteOK bool
+
+// sqliteUsable reports whether this build of the worker has a working sqlite driver (cgo).
+func sqliteUsable() bool {
+	sqliteOnce.Do(func() {
+		db, err := sql.Open("sqlite3", ":memory:")
+		if err == nil {
+			sqliteOK = db.Ping() == nil
+			db.Close()
+		}
+	})
+	return sqliteOK
+}
